@@ -61,7 +61,8 @@ CORPUS = [
     "conv T0:2.80.4.0,7.0.0.0,26.1.0.0,4.0.0.0,2.80.6.2,5.0.0.0,2.80.3.1,6.3.0.0,26.0.0.0 T80:13.7.0.0,2.40.1.0",
     "conv T0:26.1.0.0,7.0.0.0,2.81.1.1,26.0.0.0 T81:4.0.0.0,6.2.0.0,2.2.1.0",   # D25 (known): replayed in the other drum-mode state
     "conv T0:4.0.0.0,2.36.24.0,26.1.0.0,6.2.0.0 T36:13.7.0.0,2.40.1.0,2.41.1.0",  # D25 (known): drum mode switched on inside a loop
-    "conv T0:26.1.0.0,8.100.0.0,26.0.0.0 T100:2.36.1.1 T36:13.7.0.0,2.40.1.0",     # D25 (known): notes of a subroutine called in drum mode
+    "conv T0:8.100.0.0,2.36.2.2 T100:2.36.1.1,26.1.0.0 T36:13.7.0.0,2.40.1.0",      # D25 (known): a subroutine switches drum mode for its caller
+    "conv T0:26.1.0.0,8.100.0.0,26.0.0.0 T100:2.36.1.1 T36:13.7.0.0,2.40.1.0",     # a subroutine called in drum mode is written in drum mode
 ]
 
 DURS = [1, 2, 127, 128, 129, 256, 65535]
@@ -255,26 +256,30 @@ def segno_in_callee(req):
 
 def drum_dynamic(req, budget=60000):
     """D25: some note is reached in a drum-mode state (execution order: the Player and the MDSDRV flag byte) that
-    differs from the state the track writer had when it wrote the note (text order, every writer starting with
-    drum mode off).  Played the way Basic_Player does: loops, breaks, calls, drum routines, the loop-back once."""
+    differs from the state the track writer had when it wrote the note (text order; a channel writer starts with
+    drum mode off, a subroutine's writer with the state its caller's writer had at the call).  Played the way
+    Basic_Player does: loops, breaks, calls, drum routines, the loop-back once."""
     try:
         song = songgen.parse_request_song(req)
         T = songgen.event_types()
     except Exception:
         return False
-    static = {}
-    for tid, evs in song.items():
-        d, st = False, []
-        for e in evs:
-            st.append(d)
-            if e[0] == T["DRUM_MODE"]:
-                d = e[1] != 0
-        static[tid] = st
 
     class Bad(Exception):
         pass
 
+    class Found(Exception):
+        pass
+
     steps = [0]
+
+    def text_state(evs, s0):
+        d, st = s0, []
+        for e in evs:
+            st.append(d)
+            if e[0] == T["DRUM_MODE"]:
+                d = e[1] != 0
+        return st
 
     def match_end(evs, i):
         depth = 0
@@ -286,10 +291,11 @@ def drum_dynamic(req, budget=60000):
             i += 1
         raise Bad()
 
-    def play(tid, start, drum, routine, depth):
-        """-> drum state afterwards; raises StopIteration-like tuple for the routine's note"""
+    def play(tid, start, drum, s0, routine, depth):
+        """-> drum state afterwards (a routine: ("note", state) at its first note)"""
         if depth > 12 or tid not in song: raise Bad()
         evs = song[tid]
+        static = text_state(evs, s0)
         stack = []
         i = start
         while i < len(evs):
@@ -315,17 +321,18 @@ def drum_dynamic(req, budget=60000):
                     stack.pop()
                     i = j
             elif t == T["JUMP"]:
-                drum = play(e[1] % 65536, 0, drum, False, depth + 1)
+                if routine: raise Bad()
+                drum = play(e[1] % 65536, 0, drum, static[i], False, depth + 1)
             elif t == T["DRUM_MODE"]:
+                if routine: raise Bad()
                 drum = e[1] != 0
             elif t == T["NOTE"]:
                 if routine:
-                    if drum: return ("note", drum)
-                    raise Found()
-                if drum != static[tid][i]: raise Found()
+                    return ("note", drum)
+                if drum != static[i]: raise Found()
                 if drum:
-                    r = play(e[1] % 65536, 0, drum, True, depth + 1)
-                    if not (isinstance(r, tuple)): raise Bad()
+                    r = play(e[1] % 65536, 0, drum, False, True, depth + 1)
+                    if not isinstance(r, tuple): raise Bad()
                     drum = r[1]
             elif t == T["END"]:
                 break
@@ -333,16 +340,13 @@ def drum_dynamic(req, budget=60000):
         if routine: raise Bad()
         return drum
 
-    class Found(Exception):
-        pass
-
     try:
         for tid in song:
             if tid < 16:
-                d = play(tid, 0, False, False, 0)
+                d = play(tid, 0, False, False, False, 0)
                 segs = [i for i, e in enumerate(song[tid]) if e[0] == T["SEGNO"]]
                 if segs:
-                    play(tid, segs[-1] + 1, d, False, 0)
+                    play(tid, segs[-1] + 1, d, False, False, 0)
     except Found:
         return True
     except (Bad, RecursionError):
